@@ -66,6 +66,11 @@ func (p *Prog) methodOf(n *types.Named, name string) *ssa.Function {
 			}
 		}
 	}
+	// renamed? (see anchors.go)
+	if n.Obj().Pkg() != nil {
+		rel := strings.TrimPrefix(strings.TrimPrefix(n.Obj().Pkg().Path(), modPath), "/")
+		return renamedAnchor(rel+"."+n.Obj().Name()+"."+name, p.methodsOf(n))
+	}
 	return nil
 }
 
@@ -440,4 +445,29 @@ func requireRecognisedDispatch(p *Prog) {
 	if len(seen) < 5 {
 		fatalf("anchor: the dispatch of the client frame handler on the message type is not a type switch in %s.Receive or its private helpers (%d typed arms found): the arms cannot be identified", cl.Obj().Name(), len(seen))
 	}
+}
+
+// requestFrameField: the field of the proxy's request type that holds the frame handed to the
+// backend writer: what its Frame() method (proxycore.Request) returns.  By role, not by name.
+func requestFrameField(p *Prog, req *types.Named) *types.Var {
+	fn := p.methodOf(req, "Frame")
+	if fn == nil {
+		fatalf("anchor: the request type has no Frame method")
+	}
+	var found *types.Var
+	eachInstr(fn, func(in ssa.Instruction) {
+		ret, ok := in.(*ssa.Return)
+		if !ok || len(ret.Results) != 1 {
+			return
+		}
+		for _, o := range origins(ret.Results[0]) {
+			if f, base := loadedField(o); f != nil && base != nil && namedOf(base.Type()) == req {
+				found = f
+			}
+		}
+	})
+	if found == nil {
+		fatalf("anchor: the field that %s.Frame returns was not found", req.Obj().Name())
+	}
+	return found
 }
